@@ -17,7 +17,7 @@ RUNS = {"quick": 24, "thorough": 600}
 X64 = False  # float32 end to end (with x64 on, float64 PML coefficients would promote the float32 auxiliary fields)
 RULE = (
     "all six directions (axis x sign) cycled deterministically over run indices; random transverse polarisation angle, 15-24 cells per "
-    "wavelength in a homogeneous medium (eps 1-4), CW or Gaussian-pulse profile, uniform plane source (transverse 3-5 cells periodic) or "
+    "wavelength in a homogeneous medium (eps 1-4; for the uniform source one run in four each on a grid graded along the propagation axis and in a one-pole Lorentz medium), CW or Gaussian-pulse profile, uniform plane source (transverse 3-5 cells periodic) or "
     "Gaussian beam (radius 0.3-0.6 lambda, transverse 1.6-2.2 lambda periodic); PML 8-10 cells on the propagation axis. non-trivial = forward "
     "power > 0; distinct = (axis, direction, source kind, profile kind, polarisation octant, resolution bin)"
 )
@@ -38,6 +38,21 @@ def generate(rng, tier, index):
         profile_kind = specgen.choice(rng, ["cw", "pulse"])
     eps = float(rng.uniform(1.0, 4.0))
     cpw_medium = float(rng.uniform(15, 24))
+    # variants of the uniform plane source (one run in four each): (g) a grid graded along the propagation axis around the
+    # source plane (geometric width ratio 2-8 % per cell, widths within 0.7-1.4 x nominal, >= 15 cells of the *widest* kind per
+    # wavelength); (d) a homogeneous *dispersive* medium (one Lorentz pole above the carrier), resolution and run length
+    # referred to the permittivity at the carrier frequency
+    variant = specgen.choice(rng, ["plain", "plain", "graded", "dispersive"]) if kind == "uniform_plane" else "plain"
+    grade = float(rng.uniform(1.02, 1.08)) ** (1 if rng.uniform() < 0.5 else -1)
+    lor = {"w0_over_wc": float(rng.uniform(2.0, 3.0)),  # resonance at >= 2 x carrier: measured <= 1e-5 on the unchanged tree (a pulse whose spectrum reaches a resonance at 1.6-1.7 x carrier sends 2-5e-4 backward)
+            "gamma_over_w0": float(rng.uniform(0.005, 0.02)),  # damped: an undamped pole keeps ringing at its own (coarsely resolved) resonance after the CW turn-on - 3.4e-4 measured "deps": float(rng.uniform(0.5, 2.0))}
+    eps_inf = eps
+    if variant == "graded":
+        cpw_medium = float(rng.uniform(21, 28))
+    if variant == "dispersive":
+        x = lor["w0_over_wc"]
+        chi = lor["deps"] * x * x / (x * x - 1.0 - 1j * lor["gamma_over_w0"] * x)
+        eps = float(np.real(eps_inf + chi))  # permittivity seen by the carrier
     lam0 = cpw_medium * np.sqrt(eps) * specgen.SPACING
     pml = int(rng.integers(8, 11))
     interior = int(2.2 * cpw_medium) + 8
@@ -78,10 +93,26 @@ def generate(rng, tier, index):
         b = [[0, shape[a]] for a in range(3)]
         b[axis] = [p, p + 1]
         dets.append({"kind": "poynting", "name": nm, "box": b, "direction": "+", "reduce": True, "exact": True, "fixed_propagation_axis": axis})
+    grid = {"kind": "uniform", "spacing": specgen.SPACING}
+    background = {"permittivity": eps_inf}
+    if variant == "graded":
+        edges = []
+        for a in range(3):
+            w = np.full(shape[a], specgen.SPACING)
+            if a == axis:
+                w = specgen.SPACING * np.clip(grade ** (np.arange(shape[a]) - pos), 0.7, 1.4)
+            e = np.concatenate([[0.0], np.cumsum(w)])
+            edges.append([float(x) for x in (e - e[-1] / 2)])
+        grid = {"kind": "rect", "edges": edges}
+        T = int(T / 0.7) + 1  # the time step follows the smallest cell
+        period_steps = period_steps / 0.7
+    if variant == "dispersive":
+        wc = 2 * np.pi * 299792458.0 / lam0
+        background["dispersion"] = {"poles": [{"kind": "lorentz", "w0": lor["w0_over_wc"] * wc, "gamma": lor["gamma_over_w0"] * lor["w0_over_wc"] * wc, "deps": lor["deps"]}]}
     return {
-        "shape": shape, "grid": {"kind": "uniform", "spacing": specgen.SPACING}, "steps": T, "faces": faces, "dtype": "float32", "key": 0,
-        "materials": {"mode": "objects", "objects": [], "background": {"permittivity": eps}}, "sources": [src], "detectors": dets,
-        "period_steps": float(period_steps), "axis": axis,
+        "shape": shape, "grid": grid, "steps": T, "faces": faces, "dtype": "float32", "key": 0,
+        "materials": {"mode": "objects", "objects": [], "background": background}, "sources": [src], "detectors": dets,
+        "period_steps": float(period_steps), "axis": axis, "variant": variant, "eps_carrier": eps,
     }
 
 
@@ -94,7 +125,7 @@ def _tight_gaussian_leak(spec, violation):
     src = spec["sources"][0]
     if violation.get("monitor") != "backward_radiation" or src["kind"] != "gaussian_plane":
         return False
-    eps = spec["materials"].get("background", {}).get("permittivity", 1.0)
+    eps = spec.get("eps_carrier", spec["materials"].get("background", {}).get("permittivity", 1.0))
     r_rel = src["radius"] / (src["wavelength"] / np.sqrt(eps))
     return 0.3 <= r_rel <= 0.65 and 0.1 <= violation["value"] < 0.25 and violation["forward"] > 0 and violation["backward"] < 0
 
@@ -118,7 +149,8 @@ def execute(spec):
     b = sgn * D["behind/poynting_flux"][:, 0].astype(np.float64)
     T = scn.T
     if spec["sources"][0]["profile"]["kind"] == "cw":
-        n = int(round(3 * spec["period_steps"]))
+        n = int(round(3 * (spec["sources"][0]["wavelength"] / 299792458.0) / scn.dt))  # three carrier periods at the run's own dt
+        n = max(1, min(n, T // 2))
         Pf, Pb = float(np.mean(f[T - n :])), float(np.mean(b[T - n :]))
     else:
         Pf, Pb = float(np.sum(f)), float(np.sum(b))
@@ -135,6 +167,8 @@ def execute(spec):
     tail = float(np.max(np.abs(f[-3:]))) / (float(np.max(np.abs(f))) or 1.0)
     stats["probe_pulse_left_domain"] = int(spec["sources"][0]["profile"]["kind"] == "pulse" and tail < 1e-3)
     stats["probe_" + kind] = 1
+    stats["probe_variant_" + spec.get("variant", "plain")] = 1
+    resid["back_over_forward_" + kind + "_" + spec.get("variant", "plain")] = ratio
     stats["probe_" + spec["sources"][0]["profile"]["kind"]] = 1
     ang = np.arctan2(*[spec["sources"][0]["e_pol"][(spec["axis"] + k) % 3] for k in (2, 1)])
     sig = specgen.signature(spec["axis"], spec["sources"][0]["direction"], kind, spec["sources"][0]["profile"]["kind"], int((ang % (2 * np.pi)) // (np.pi / 4)), int(spec["period_steps"] // 8))
